@@ -139,7 +139,8 @@ class CGen:
                 self._scalar_asserts(o, t, n, cw, "x", lang_t, "rec_" + hn, core_t, "giv_" + hn, "r", "import", lower_i, lift_i)
                 o.append("}")
                 self.harnesses.append({"name": hn, "kind": "scalar", "t": t, "ctx": "import", "lang_t": lang_t, "core_t": core_t,
-                                       "labels": ["C14|%s|import" % lower_i, "C14|%s|import" % lift_i],
+                                       "labels": ["C14|%s|import" % lower_i, "C14|%s|import" % lift_i] +
+                                                 (["C14|%s|import|noncanonical-nonzero-lifts-false" % lift_i] if t == "bool" else []),
                                        "inputs": [("language value lowered (%s)" % lang_t, CT_BITS[lang_t]),
                                                   ("core result lifted (%s)" % core_t, CT_BITS[core_t])],
                                        "fn": wname, "line": self.line_of(" %s(" % wname)})
@@ -164,7 +165,8 @@ class CGen:
         self._scalar_asserts(o, t, n, cw, "giv_" + hn, lang_t, "r", core_t, "c", "rec_" + hn, "export", lower_i, lift_i)
         o.append("}")
         self.harnesses.append({"name": hn, "kind": "scalar", "t": t, "ctx": "export", "lang_t": lang_t, "core_t": core_t,
-                               "labels": ["C14|%s|export" % lower_i, "C14|%s|export" % lift_i],
+                               "labels": ["C14|%s|export" % lower_i, "C14|%s|export" % lift_i] +
+                                         (["C14|%s|export|noncanonical-nonzero-lifts-false" % lift_i] if t == "bool" else []),
                                "inputs": [("language result lowered (%s)" % lang_t, CT_BITS[lang_t]),
                                           ("core argument lifted (%s)" % carg_t, CT_BITS[carg_t])],
                                "fn": ename, "line": self.line_of(" %s(" % ename)})
@@ -181,8 +183,9 @@ class CGen:
             o.append('  CHECK_(zx_(%s, 32) == (%s ? 1ull : 0ull), "C14|%s|%s");' % (cb_out, lx, lower_i, ctx))
             o.append('  if (zx_(%s, 32) <= 1ull) CHECK_((%s ? 1ull : 0ull) == zx_(%s, 32), "C14|%s|%s");'
                      % (cb_in, lr, cb_in, lift_i, ctx))
-            o.append('  CHECK_((%s ? 1ull : 0ull) == (zx_(%s, 32) != 0ull ? 1ull : 0ull), "INFO|%s|%s|any nonzero lifts to true");'
-                     % (lr, cb_in, lift_i, ctx))
+            # other non-zero core values: the spec lifts them to true (C cannot trap here); `false` is a violation
+            o.append('  if (zx_(%s, 32) > 1ull) CHECK_((%s ? 1ull : 0ull) == 1ull, "C14|%s|%s|noncanonical-nonzero-lifts-false");'
+                     % (cb_in, lr, lift_i, ctx))
             return
         if t == "char":
             o.append('  if (valid_scalar_(zx_(%s, 32))) CHECK_(zx_(%s, 32) == zx_(%s, 32), "C14|%s|%s");' % (lxb, cb_out, lxb, lower_i, ctx))
